@@ -80,6 +80,7 @@ func checkpointScenario(c *sup.Ctx, r *rng.R, props []string) {
 	c.Count("checkpoints_read", int64(len(res.Checkpoints)))
 	c.Count("recreations_while_feed_stopped", int64(res.OfflineRecreations))
 	c.Count("imports_with_a_future_cas", int64(res.FutureImports))
+	c.Count("resumes_right_after_a_stop", int64(res.ResumesRightAfterAStop))
 	c.Count("final_versions_checked", int64(res.FinalVersionsChecked))
 	c.Cell(fmt.Sprintf("checkpoint|writers=%d|restarts=%d|busy=%d|%s", writers, restarts, min(int64(res.StopsWhileBusy), 4), ifStr(disk, "disk", "mem")))
 	if msg != "" {
